@@ -49,7 +49,7 @@ func cmdGen(args []string) {
 	for i := 0; i < *n; i++ {
 		c := g.genCase(*stream, fmt.Sprintf("%s-%d-%d", *stream, *seed, i))
 		fmt.Fprintln(cw, c.line())
-		fmt.Fprintln(rw, c.run(5*time.Second))
+		fmt.Fprintln(rw, c.run(20*time.Second))
 	}
 	must(cw.Flush())
 	must(rw.Flush())
@@ -73,7 +73,7 @@ func cmdRun(args []string) {
 			continue
 		}
 		c := parseCase(line)
-		fmt.Fprintln(rw, c.run(5*time.Second))
+		fmt.Fprintln(rw, c.run(20*time.Second))
 	}
 	must(rw.Flush())
 	rf.Close()
